@@ -12,7 +12,7 @@ This module contains classes for XML Schema simple data types.
 """
 import re
 from collections.abc import Callable, Iterator
-from decimal import DecimalException, Decimal
+from decimal import Decimal
 from functools import cached_property
 from typing import cast, Any, Union
 from xml.etree import ElementTree
@@ -618,7 +618,7 @@ class XsdAtomic(XsdSimpleType):
         elif not isinstance(value, self.python_type):
             try:
                 return self.to_python(value)  # type: ignore[arg-type]
-            except (ValueError, DecimalException, TypeError):
+            except (ValueError, ArithmeticError, TypeError):
                 if strict:
                     raise
         elif self.is_qname():
@@ -713,7 +713,7 @@ class XsdAtomicBuiltin(XsdAtomic):
         if validation == 'skip':
             try:
                 return self.to_python(obj)
-            except (ValueError, TypeError, DecimalException):
+            except (ValueError, TypeError, ArithmeticError):
                 return raw_encode_value(obj)
 
         if self.patterns is not None:
@@ -724,7 +724,7 @@ class XsdAtomicBuiltin(XsdAtomic):
 
         try:
             result: DecodedValueType = self.to_python(obj)
-        except (ValueError, DecimalException) as err:
+        except (ValueError, ArithmeticError) as err:
             context.decode_error(validation, self, obj, self.to_python, err)
             return None
         except TypeError:
@@ -792,7 +792,7 @@ class XsdAtomicBuiltin(XsdAtomic):
         if validation == 'skip':
             try:
                 return self.from_python(obj)
-            except ValueError:
+            except (ValueError, ArithmeticError):
                 return raw_encode_value(obj)
 
         if isinstance(obj, bool) and self.name != nm.XSD_BOOLEAN:
@@ -802,7 +802,7 @@ class XsdAtomicBuiltin(XsdAtomic):
         if isinstance(obj, str):
             try:
                 value = self.to_python(obj)
-            except (ValueError, TypeError) as err:
+            except (ValueError, TypeError, ArithmeticError) as err:
                 context.encode_error(validation, self, obj, self.to_python, err)
                 return None
 
@@ -815,13 +815,13 @@ class XsdAtomicBuiltin(XsdAtomic):
 
                 try:
                     obj = self.python_type(obj)
-                except (ValueError, TypeError) as err:
+                except (ValueError, TypeError, ArithmeticError) as err:
                     context.encode_error(validation, self, obj, self.to_python, err)
                     return None
 
             try:
                 text = self.from_python(obj)
-            except ValueError as err:
+            except (ValueError, ArithmeticError) as err:
                 context.encode_error(validation, self, obj, self.from_python, err)
                 return None
 
@@ -1162,7 +1162,7 @@ class XsdUnion(XsdSimpleType):
         for mt in self.member_types:
             try:
                 values.append(mt.get_atomic_value(value, namespaces, strict=True))
-            except (TypeError, ValueError, DecimalException):
+            except (TypeError, ValueError, ArithmeticError):
                 pass
 
         if not values:
